@@ -295,13 +295,27 @@ class ErrorsContained(Monitor):
         if k == "dispatch" and op == "dispatch" and pre["state"] is not None:
             if pre["status"] not in st.RUNNING_STATUSES:
                 return False
-            return any(s["id"] == t["task"] and s["ready"] and not s.get("completed")
-                       for s in pre["state"]["staged"])
+            if t.get("needs_failed") and not any(
+                    r["id"] == t["needs_failed"] and r.get("status") == st.FAILED
+                    for r in pre["state"]["sequence"]):
+                return False
+            for s in pre["state"]["staged"]:
+                if s["id"] == t["task"] and s["ready"] and not s.get("completed"):
+                    if t.get("when_ctx"):
+                        merged = {}
+                        for i in s["ctxs"]["in"]:
+                            merged.update(pre["state"]["contexts"][i])
+                        if any(merged.get(kk) != vv for kk, vv in t["when_ctx"].items()):
+                            continue
+                    return True
+            return False
         if k == "complete" and op in ("complete", "release"):
             a = res.extra.get("action") or move[4]
             if a[0] != t["task"]:
                 return False
             if t.get("status") and res.extra.get("status") != t["status"]:
+                return False
+            if t.get("statuses") and res.extra.get("status") not in t["statuses"]:
                 return False
             return True
         return False
@@ -316,7 +330,9 @@ class ErrorsContained(Monitor):
             sig.setdefault("position", pos)
             return [{"kind": kind, "sig": sig, "detail": d}]
 
-        if res.exc is not None and res.exc_type not in DOCUMENTED_REJECTIONS.get(op, ()):
+        if op == "start" and res.exc_type == "InvalidWorkflowStatusTransition" and post["status"] == st.FAILED:
+            pass  # documented: a running request on a workflow that failed while rendering input/vars
+        elif res.exc is not None and res.exc_type not in DOCUMENTED_REJECTIONS.get(op, ()):
             e = res.extra.get("exc_obj")
             return v("exception_escaped", op=op, exc_type=res.exc_type, site=exc_site(e) if e else None,
                      _detail=res.exc)
@@ -346,6 +362,6 @@ class ErrorsContained(Monitor):
             sim.h["cancel_req"] and post["status"] in (st.CANCELED, st.CANCELING))
         if not ok_status:
             return v("runtime_error_did_not_fail_workflow", status=post["status"])
-        if op == "dispatch" and res.offers:
+        if op == "dispatch" and res.offers and not self.trig.get("at_ack"):
             return v("offer_after_runtime_error", _detail=[o["id"] for o in res.offers])
         return []
